@@ -57,7 +57,8 @@ for d in sorted(glob.glob(f"{V}/seeded/*/meta.json")):
     m=json.load(open(d)); suf=os.path.basename(os.path.dirname(d)).split('-')[1]
     own=m['results'].get(m['property'],'')
     rounds[suf][0]+=1
-    if 'first version' in own or own.lower().startswith('detected after') or own.lower().startswith('missed'):
+    low=own.lower()
+    if 'first version' in low or 'first catalogue' in low or low.startswith('detected after') or low.startswith('detected (after') or low.startswith('detected (quick, after') or low.startswith('missed') or 'added after' in low:
         rounds[suf][1]+=1
 out.append("Rounds: " + "; ".join(f"-{k}: {v[0]} changes, {v[1]} not caught by the owning check as it was then (each led to the strengthening named in its row; all are caught now)" for k,v in sorted(rounds.items())) + ". The owning check is the one for the property the sub-agent was given; other checks that were tried are listed as well, a miss by a non-owner is not a defect of that check.\n")
 out.append("| seed | what it needs to manifest | checks (quick tier) |")
